@@ -92,6 +92,11 @@ type Result struct {
 	Leftover int            // goroutines still inside pubsub/gochannel or the transform decorator at the end
 	LeftDump string
 	Wall     time.Duration
+
+	// filled by RegStream for ProdStreams: the registry tokens, the index of the log event each comes from, uuid numbering
+	regToks   []string
+	regIdx    []int
+	regUuidNo map[string]int
 }
 
 type subCtxKey struct{}
